@@ -787,6 +787,17 @@ func c16H5(r *Run) {
 			})
 		}
 		scan(closeFn, 0)
+		// ... and on every path: each return of Close is dominated by the Wait (directly or through a package
+		// function that itself always waits); a fast path that returns before waiting lets handleConn announce
+		// wg.Done while the loops are still running
+		key := "kmipserver.conn.Close/waits-on-every-path"
+		if waits {
+			if pos, ok := alwaysWaits(closeFn, 0); ok {
+				r.OK("C16.H5", key, closeFn.Pos(), "every return of conn.Close is dominated by the wait for the connection's goroutines")
+			} else {
+				r.Bad("C16.H5", key, pos, "conn.Close can return without having waited for the connection's read/write goroutines (a return not dominated by the WaitGroup wait): handleConn's deferred Close is what joins them before wg.Done, so Shutdown can return while they are still running")
+			}
+		}
 	}
 	// handleConn defers conn.Close, so whatever Close waits for is joined before wg.Done of the connection goroutine
 	closeDeferred := false
@@ -1510,4 +1521,56 @@ func c08K5Sentinels(r *Run) {
 	default:
 		r.OK("C08.K5", key, token.NoPos, "no encoding error wraps an io end-of-stream sentinel (%d wrapping Errorf call(s) inspected), or IsErrEncoding is tested first", n)
 	}
+}
+
+// alwaysWaits: every return of fn is dominated by a sync.WaitGroup.Wait call (or a deferred one in the entry
+// block), directly or in a package function with the same property. Returns the first offending return.
+func alwaysWaits(fn *ssa.Function, depth int) (token.Pos, bool) {
+	if fn == nil || fn.Blocks == nil || depth > 2 {
+		return token.NoPos, false
+	}
+	var waitsAt []ssa.Instruction
+	for _, in := range fn.Blocks[0].Instrs {
+		if d, ok := in.(*ssa.Defer); ok && callID(&d.Call).is("sync", "WaitGroup", "Wait") {
+			return token.NoPos, true
+		}
+	}
+	allInstrs(fn, func(in ssa.Instruction) {
+		call, ok := in.(*ssa.Call)
+		if !ok {
+			return
+		}
+		if callID(&call.Call).is("sync", "WaitGroup", "Wait") {
+			waitsAt = append(waitsAt, in)
+			return
+		}
+		if sc := call.Call.StaticCallee(); sc != nil && idOf(sc).pkg == srvPath && sc != fn {
+			if _, ok := alwaysWaits(sc, depth+1); ok {
+				waitsAt = append(waitsAt, in)
+			}
+		}
+	})
+	for _, b := range fn.Blocks {
+		if len(b.Instrs) == 0 {
+			continue
+		}
+		ret, ok := b.Instrs[len(b.Instrs)-1].(*ssa.Return)
+		if !ok {
+			continue
+		}
+		dom := false
+		for _, w := range waitsAt {
+			if dominatesInstr(w, ret) {
+				dom = true
+			}
+		}
+		if !dom {
+			pos := ret.Pos()
+			if !pos.IsValid() {
+				pos = fn.Pos()
+			}
+			return pos, false
+		}
+	}
+	return token.NoPos, true
 }
